@@ -55,6 +55,10 @@ def _segment(E, total=65534, stack=512):
 # layout items: (kind, length); kinds:
 #   's' scalar assigned and kept, 'g' scalar assigned then overwritten (garbage), 'a' array element,
 #   't' temporary kept alive on the evaluation stack, 'e' empty scalar, 'l' scalar pointing at a program literal,
+#   'v' scalar assigned and kept, with a view of the variable itself waiting on the evaluation stack (as every
+#       variable operand of an expression is: the same pointer reaches the collector twice)
+#   'w' scalar assigned and kept, with a view of the variable registered in temp_values (argument of a running
+#       built-in string function)
 #   'z' scalar holding a *computed* empty string (length 0 but carrying the address of the allocation pointer,
 #       i.e. the address of the string stored just before it)
 LAYOUTS = [
@@ -75,6 +79,10 @@ LAYOUTS = [
     [('a', 2), ('z', 0), ('t', 1)],
     [('s', 1)],
     [('s', 1), ('t', 2)],
+    [('v', 3)],
+    [('g', 4), ('v', 2), ('s', 1)],
+    [('v', 2), ('g', 3), ('t', 2), ('w', 1)],
+    [('a', 2), ('w', 3), ('g', 1)],
 ]
 
 
@@ -100,9 +108,16 @@ def _build(E, ds, layout):
             E.call(z.from_str, b'')
             E.call(ds.set_variable, name, [], z)
             live.append((name.decode() + ' (computed empty)', (ds.view_or_create_variable, name, []), []))
-        elif kind in ('s', 'g', 'e'):
+        elif kind in ('s', 'g', 'e', 'v', 'w'):
             name = next(names)
             E.call(ds.set_variable, name, [], new_string(E, vals, content) if L else vals.new_string())
+            if kind in ('v', 'w'):
+                view = E.call(ds.view_or_create_variable, name, []).value
+                if kind == 'v':
+                    stack.append(view)
+                else:
+                    ds.temp_values.add(view)
+                live.append(('operand view of ' + name.decode(), view, list(to_cells(content))))
             if kind == 'g':
                 # overwrite: the old bytes become garbage
                 E.call(ds.set_variable, name, [], vals.new_string())
@@ -128,13 +143,26 @@ def _build(E, ds, layout):
     return live, live_bytes
 
 
+class _Unreadable(list):
+    """Result of reading a string whose pointer is detached: equal to no value."""
+    def __len__(self):
+        return -1
+
+
 def _read(E, getter):
-    if not isinstance(getter, tuple):
-        return str_cells(E, getter)
-    v = E.call(*getter)
-    if v.raised:
-        raise Unsupported('reading a live string raised %r' % (v.exc,))
-    return str_cells(E, v.value)
+    if isinstance(getter, tuple):
+        v = E.call(*getter)
+        if v.raised:
+            raise Unsupported('reading a live string raised %r' % (v.exc,))
+        getter = v.value
+    out = E.call(getter.to_str)
+    if out.raised:
+        if isinstance(out.exc, KeyError):
+            # 'Dereferencing detached string': the pointer refers to no stored string
+            E.prove(False, 'a live string pointer refers to a stored string (detached: %s)' % (out.exc,))
+            raise PathDone('live string unreadable')
+        raise Unsupported('to_str raised %r' % (out.exc,))
+    return to_cells(out.value)
 
 
 def _strings_ok(E, ds, live, live_bytes, what, packed):
@@ -218,6 +246,69 @@ def t_check_free(E, layout_no, slack):
     if collected:
         E.prove(size >= slack - garbage, 'a collection happens only when the space before it was insufficient')
     _strings_ok(E, ds, live, live_bytes, 'after check_free', packed=False)
+
+
+def t_mid_statement(E, slack, temp):
+    """MID$(A$, 2) = value where A$ points at a program literal (so the statement first copies the
+    literal into string space) and only `slack` bytes are free after a collection, garbage present:
+    the value - a temporary result of an expression (temp) or a variable - survives the collection the
+    copy may trigger; the statement either assigns or reports Out of string space."""
+    ds = _segment(E)
+    layout = [('l', 6), ('g', 5), ('s', 3)]
+    live, live_bytes = _build(E, ds, layout)
+    vals = ds.values
+    vcells = [E.int('v[%d]' % i, 0, 255) for i in range(3)]
+    if temp:
+        val = new_string(E, vals, SBuf(vcells, 'bytes') if E.mode == 'symbolic' else bytes(vcells))
+        live_bytes += 3
+    else:
+        val = E.call(ds.view_or_create_variable, b'C$', []).value     # the ('s', 3) scalar
+        vcells = live[-1][2]
+    free_now = E.call(ds._get_free).value
+    ds.arrays.current += free_now + 5 - slack
+    two = E.new(numbers.Integer, None, vals)
+    E.call(two.from_int, 2)
+    r = E.call(ds.mid_, iter([(b'A$', []), two, None, val]))
+    E.prove(not r.raised or r.is_error(BASICError, error.OUT_OF_STRING_SPACE), 'assigns or reports Out of string space, nothing else')
+    got = _read(E, (ds.view_or_create_variable, b'A$', []))
+    if r.raised:
+        E.cover('refused')
+        E.prove(slack <= 6, 'refused only when the copy of the literal does not fit after a collection')
+        E.prove(len(got) == 6 and bool(same_bytes(got, [76] * 6)), 'A$ keeps its value when the statement fails')
+    else:
+        E.cover('assigned')
+        want = [76] + list(vcells) + [76, 76]
+        E.prove(len(got) == 6 and bool(same_bytes(got, want)), 'A$ reads back the literal with the value written from position 2')
+    others = [x for x in live if not x[0].startswith('A$')]
+    _strings_ok(E, ds, others, 0, 'after the MID$ statement', packed=False)
+
+
+def t_swap_statement(E, slack, right_exists):
+    """SWAP A$, Y$(0) under memory pressure: when Y$ is not dimensioned the look-up of the right
+    operand allocates the array (42 bytes), which may collect garbage and move A$'s string.
+    Either the statement fails with Out of memory and nothing changes, or the two values are exchanged."""
+    ds = _segment(E)
+    layout = [('g', 4), ('s', 3), ('g', 2), ('s', 2)]
+    live, live_bytes = _build(E, ds, layout)     # B$ = str1 (3 bytes), D$ = str3 (2 bytes); A$, C$ garbage
+    if right_exists:
+        E.call(ds.arrays.allocate, b'Y$', [10])
+    free_now = E.call(ds._get_free).value
+    # leave `slack` bytes free after a collection (6 bytes of garbage)
+    ds.arrays.current += free_now + 6 - slack
+    r = E.call(ds.swap_, iter([(b'B$', []), (b'Y$', [0])]))
+    b_val, d_val = live[0][2], live[1][2]
+    if r.raised:
+        E.cover('refused')
+        E.prove(r.is_error(BASICError, error.OUT_OF_MEMORY), 'only Out of memory')
+        E.prove(not right_exists and slack <= 42, 'refused only when the array does not fit after a collection')
+        _strings_ok(E, ds, live, live_bytes, 'after the failed SWAP', packed=False)
+    else:
+        E.cover('swapped')
+        got_y = _read(E, (ds.view_or_create_variable, b'Y$', [0]))
+        got_b = _read(E, (ds.view_or_create_variable, b'B$', []))
+        E.prove(len(got_y) == 3 and bool(same_bytes(got_y, b_val)), 'the array element reads back the old value of the scalar')
+        E.prove(len(got_b) == 0, 'the scalar reads back the old (empty) value of the array element')
+        _strings_ok(E, ds, [live[1]], 0, 'after SWAP', packed=False)
 
 
 def t_context_managers(E, which, fails):
@@ -325,6 +416,10 @@ TASKS = [
     Task('StringSpace.store', t_store, cases=[{'layout_no': i, 'L': L} for i in (0, 2, 4, 8) for L in (0, 1, 5, 255)]),
     Task('temporaries', t_temporaries, cases=[{'L': L} for L in (1, 4)]),
     Task('temporaries boundary across a collection', t_temp_boundary, cases=[{'layout_no': i} for i in (1, 3, 7, 9, 10, 11, 12, 15, 16)]),
+    Task('MID$ statement on a program literal under memory pressure', t_mid_statement, covers=('refused', 'assigned'),
+         cases=[{'slack': k, 'temp': t} for k in (0, 3, 6, 7, 8, 10, 12, 40) for t in (True, False)]),
+    Task('SWAP with an implicitly dimensioned array under memory pressure', t_swap_statement, covers=('refused', 'swapped'),
+         cases=[{'slack': k, 'right_exists': x} for k in (0, 20, 43, 46, 47, 48, 49, 50, 60, 200) for x in (False, True)]),
     Task('hold_garbage / get_stack', t_context_managers,
          cases=[{'which': w, 'fails': f} for w in ('hold_garbage', 'get_stack') for f in (False, True)]),
 ]
